@@ -56,10 +56,12 @@ def select__namespace_axis(self: XPathAxis, context: ta.ContextType = None) \
         return  # deprecated for XP20+ and not needed for schema analysis
     elif isinstance(context.item, ElementNode):
         elem = context.item
-        if self[0].symbol != 'namespace-node':
-            name = self[0].value
-        else:
+        if self[0].symbol in ('namespace-node', 'node'):
             name = '*'
+        elif self[0].label == 'kind test':
+            return  # text(), comment(), ... never match a namespace node
+        else:
+            name = self[0].value
 
         for item in elem.namespace_nodes:
             if name == '*' or name == item.prefix:
